@@ -168,18 +168,21 @@ PROPS = {
         "functions": [
             ("rsass::input::Context::lock_loading", "input/context.rs", r"pub\(crate\) fn lock_loading"),
             ("rsass::input::Context::unlock_loading", "input/context.rs", r"pub fn unlock_loading"),
+            ("rsass::output::transform::handle_item (Item::Use / Forward / Import arms)", "output/transform.rs", r"Item::Import\(names, args, pos\) =>"),
         ],
-        "bounds": {"quick": "one lock_loading / unlock_loading call from an ARBITRARY set of files being loaded (the map's answer is symbolic)"},
-        "outside": "URL resolution and spelling (relative(), find_file), that every lock is paired with an unlock on all paths of transform.rs / mixin.rs (load-css), termination of the recursive descent itself",
+        "bounds": {"quick": "one lock_loading / unlock_loading call from an ARBITRARY set of files being loaded (the map's answer is symbolic); the three arms of handle_item "
+                            "with every outcome of find_file, parse and the evaluation calls (each Result forks), one or two names per @import"},
+        "outside": "URL resolution and spelling (relative()), meta.load-css (mixin.rs), error paths (a failed compilation keeps its locks), termination of the recursive descent itself",
         "stubs": ["BTreeMap::insert/remove are events with a symbolic previous entry", "SourceFile::source().name() and path() name the same key (both read data.source.name: checked in the MIR of path())"],
         "assumptions": ["rustc nightly MIR text = the code that is compiled", "mirsym's MIR subset semantics (/verif/mirsym/sym.py)", "z3 5.1 and cvc5 1.0.3"],
     },
     "C03": {
         "engines": ["E2 mirsym+z3/cvc5"],
         "e2": True,
-        "functions": [("rsass::output::CssData::load_module", "output/cssdata.rs", r"pub fn load_module")],
+        "functions": [("rsass::output::CssData::load_module", "output/cssdata.rs", r"pub fn load_module"),
+                      ("rsass::output::transform::handle_item (Item::Use / Forward arms: cache key)", "output/transform.rs", r"Item::Use\(name, as_n, with, pos\) =>")],
         "bounds": {"quick": "one load_module call from an ARBITRARY cache state, the initialiser's result (Ok/Err) symbolic"},
-        "outside": "that Item::Use / Item::Forward pass a canonical path (different spellings of one URL), the module scopes themselves, @import (not cached by design)",
+        "outside": "canonicalisation of the path (`d/../a` vs `a`: FsLoader joins without normalising), the module scopes themselves, @import (not cached by design)",
         "stubs": ["BTreeMap::get/insert are events", "the initialiser closure is an opaque call returning Ok(scope) or Err"],
         "assumptions": ["rustc nightly MIR text = the code that is compiled", "mirsym's MIR subset semantics (/verif/mirsym/sym.py)", "z3 5.1 and cvc5 1.0.3"],
     },
@@ -291,7 +294,8 @@ PROPS = {
     "C36": {
         "engines": ["E2 mirsym+z3/cvc5"],
         "e2": True,
-        "functions": [("rsass::output::transform::handle_item (Item::Comment arm)", "output/transform.rs", r"Item::Comment\(c\) =>")],
+        "functions": [("rsass::output::transform::handle_item (Item::Comment arm)", "output/transform.rs", r"Item::Comment\(c\) =>"),
+                      ("handle_item @use/@forward module initialiser closures", "output/transform.rs", r"let module = ScopeRef::new_global\(scope.get_format\(\)\);")],
         "bounds": {"quick": "the Comment arm of handle_item for ANY comment, style flag and `!` prefix symbolic"},
         "outside": "the parser (which comments are loud/silent, where they attach), css::Comment::write re-indentation, comments inside values and selectors; the silent-comment clause is checked only by a native probe",
         "stubs": ["Format::is_compressed and str::starts_with are symbolic booleans", "SassString::evaluate returns Ok(text) or Err", "push_comment is an event"],
